@@ -66,7 +66,7 @@ func (it *Interp) nameTerm(s *Sym) *Sym {
 		srt = "Bool"
 	}
 	it.emit("(define-fun " + name + " () " + srt + " " + s.T + ")")
-	return &Sym{S: s.S, T: name, Bits: s.Bits, NonNeg: s.NonNeg}
+	return &Sym{S: s.S, T: name, Lo: s.Lo, Hi: s.Hi}
 }
 
 func (it *Interp) nameVal(v Value) Value {
@@ -82,9 +82,11 @@ func (it *Interp) feasible(c Value) bool {
 		return b
 	}
 	it.flush()
+	it.solver.SetTimeout(it.R.FeasTimeoutMs)
 	it.solver.Send("(push 1)\n(assert " + T(c) + ")\n")
 	r := it.solver.CheckSat()
 	it.solver.Send("(pop 1)\n")
+	it.solver.SetTimeout(it.R.TimeoutMs)
 	it.R.countQuery(r)
 	if strings.HasPrefix(r, "error") {
 		panic(unsupported("solver error: " + r))
@@ -183,6 +185,9 @@ func (it *Interp) model() map[string]string {
 		if v, ok := vals[a.Name]; ok {
 			out[a.Tag] = v
 		}
+	}
+	for k, v := range it.choices {
+		out[k] = v
 	}
 	return out
 }
